@@ -38,7 +38,7 @@ class Chooser:
         if n <= 1 or (self.enabled is not None and label not in self.enabled):
             return 0
         if label in self.force:
-            r = self.force[label]
+            r = min(self.force[label], n - 1)
             if r:
                 self.used[label] = self.used.get(label, 0) + 1
             return r
